@@ -93,7 +93,7 @@ func newChainWorld(drv int) *chainWorld {
 	c.sim.Commit()
 	return c
 }
-func (c *chainWorld) Close() { c.sim.Close(); c.st.Destroy() }
+func (c *chainWorld) Close()      { c.sim.Close(); c.st.Destroy() }
 func (c *chainWorld) next() int64 { c.nonce++; return c.nonce }
 func (c *chainWorld) tx(a *bind.TransactOpts, value *big.Int) *bind.TransactOpts {
 	return &bind.TransactOpts{From: a.From, Signer: a.Signer, Value: value, GasPrice: big.NewInt(1), GasLimit: 300000}
@@ -508,6 +508,84 @@ func contractTwoSpellings(drv int, rng *rand.Rand) (map[string]interface{}, []st
 	return map[string]interface{}{"driver": driverNames[drv], "deposit": dep, "overlapped": overlapped, "results": fmt.Sprint(errs), "received": received.String()}, mon
 }
 
+// contractManyAccounts: a long-lived pool: the balances of thousands of other accounts are looked
+// up (pool_account is open to anybody) between a wallet's deposit being cached and its
+// withdrawal. Nothing about the wallet may change for that: the lookups all return, the
+// withdrawal pays deposit + credit once, the balance reads 0 afterwards, and a second withdrawal
+// pays nothing.
+func contractManyAccounts(drv int, rng *rand.Rand) (map[string]interface{}, []string) {
+	bg := context.Background()
+	c := newChainWorld(drv)
+	defer c.Close()
+	var mon []string
+	dep := int64(1000 + rng.Intn(100000))
+	cred := int64(1 + rng.Intn(1000))
+	other := bind.NewKeyedTransactor(keyFor("operator"))
+	if _, err := c.contract.AddBalance(c.tx(other, big.NewInt(10000000))); err != nil {
+		fatal("funding: %v", err)
+	}
+	c.deposit(dep)
+	cp, settle := c.payment(true)
+	wallet := walletOf("w1")
+	acct := store.Account(wallet)
+	c.st.AddAccountBalance(acct, big.NewInt(cred))
+	pay := &payment.PaymentService{NonceStore: c.st.Store, AccountStore: c.st.Store, BalanceStore: cp, Settle: settle}
+	if b, err := cp.GetAccountBalance(acct); err != nil || b.Deposit.Cmp(big.NewInt(dep)) != 0 {
+		fatal("deposit not visible: %v %v", b, err)
+	}
+	others := 11000 + rng.Intn(2000)
+	done := make(chan int, 1)
+	go func() {
+		n := 0
+		for k := 0; k < others; k++ {
+			a := store.Account(fmt.Sprintf("0x%040x", 0xabc00000+k))
+			if _, err := cp.GetAccountBalance(a); err == nil {
+				n++
+			}
+		}
+		done <- n
+	}()
+	looked := -1
+	t0 := time.Now()
+	select {
+	case looked = <-done:
+	case <-time.After(60 * time.Second):
+	}
+	took := time.Since(t0)
+	if looked < 0 {
+		mon = append(mon, fmt.Sprintf("c15-contract-lookups-wedged: the balances of %d other accounts were looked up one after the other; the lookups stopped returning (still waiting after %s): every request that reads a balance is stuck behind them", others, took.Round(time.Second)))
+		return map[string]interface{}{"driver": driverNames[drv], "other_accounts": others, "lookups_returned": false}, mon
+	}
+	wAddr := common.HexToAddress(wallet)
+	ether := func() *big.Int { b, _ := c.sim.BalanceAt(bg, wAddr, nil); return b }
+	withdraw := func() error {
+		n := c.next()
+		sig, _ := request.Sign(keyFor("w1"), "pool_withdraw", wallet, n)
+		return pay.Withdraw(bg, sig, wallet, n)
+	}
+	e0 := ether()
+	first := withdraw()
+	afterRead := "?"
+	if b, err := cp.GetAccountBalance(acct); err == nil {
+		afterRead = b.Deposit.String()
+	}
+	second := withdraw()
+	c.sim.Commit()
+	received := new(big.Int).Sub(ether(), e0)
+	want := big.NewInt(dep + cred)
+	if first != nil {
+		mon = append(mon, fmt.Sprintf("c07-contract-refused: after %d other lookups the withdrawal of deposit %d + credit %d was refused: %v", others, dep, cred, first))
+	} else {
+		if afterRead != "0" {
+			mon = append(mon, fmt.Sprintf("c07-contract-left: after the withdrawal the pool still reads the wallet's deposit as %s (%d other accounts had been looked up before)", afterRead, others))
+		}
+		if received.Cmp(want) != 0 {
+			mon = append(mon, fmt.Sprintf("c07-contract-paid: after %d lookups of other accounts two withdrawals in a row (results %v, %v) put %s into the wallet; deposit %d + credit %d = %s was owed, once", others, first, second, received, dep, cred, want))
+		}
+	}
+	return map[string]interface{}{"driver": driverNames[drv], "other_accounts": others, "lookups_took_ms": took.Milliseconds(), "first": fmt.Sprint(first), "second": fmt.Sprint(second), "received": received.String()}, mon
+}
+
 // contractCase runs one of the scenarios and keeps the monitors of the property being checked.
 func contractCase(ctx *Ctx, i int, rng *rand.Rand, scenario string, prefixes ...string) {
 	drv := i % 2
@@ -524,6 +602,8 @@ func contractCase(ctx *Ctx, i int, rng *rand.Rand, scenario string, prefixes ...
 		desc, mon = contractRestartBeforeMining(drv, rng)
 	case "two-spellings":
 		desc, mon = contractTwoSpellings(drv, rng)
+	case "many-accounts":
+		desc, mon = contractManyAccounts(drv, rng)
 	default:
 		desc, mon = contractSettleInFlight(drv, rng)
 	}
